@@ -534,6 +534,8 @@ func (i *Interp) templateRender(caller *frame, s *Term, cache value, extra *mapV
 		}
 		if ok && v.t != nil {
 			out = StrConcat(out, i.formatValue(caller, v, 'v'))
+		} else if i.params["__tmplsrc"] == 1 {
+			out = StrConcat(out, TStr("<no value>")) // removed again by the templater's own clean-up
 		}
 	}
 	return out
